@@ -12,7 +12,9 @@ from concurrent.futures import ThreadPoolExecutor
 
 VERIF = os.path.dirname(os.path.dirname(os.path.abspath(__file__)))
 REPO = os.environ.get("VERIF_REPO", "/repo")
-BUILD = os.path.join(VERIF, ".build")
+BUILD = os.environ.get("VERIF_BUILD", os.path.join(VERIF, ".build"))
+EVID = os.environ.get("VERIF_EVIDENCE_DIR", os.path.join(VERIF, "evidence"))
+REPLAYS = os.environ.get("VERIF_REPLAY_DIR", os.path.join(VERIF, "replays"))
 sys.path.insert(0, os.path.join(VERIF, "tools"))
 from checks import CHECKS  # noqa: E402
 
@@ -210,7 +212,7 @@ def main():
         log("unknown property", pid); return 3
     spec = CHECKS[pid]
     t0 = time.time()
-    evidence_path = os.path.join(VERIF, "evidence", pid + ".json")
+    evidence_path = os.path.join(EVID, pid + ".json")
     if not replay:
         try:
             os.remove(evidence_path)
@@ -305,7 +307,7 @@ def main():
             new.append(v)
     for sig, k in seen_known.items():
         log("KNOWN-FINDING: property=%s %s -- %s" % (pid, sig, k["what"]))
-    os.makedirs(os.path.join(VERIF, "replays"), exist_ok=True)
+    os.makedirs(REPLAYS, exist_ok=True)
     bysig = {}
     for v in new:
         bysig.setdefault(v["signature"], []).append(v)
@@ -313,7 +315,7 @@ def main():
     for sig, vs in bysig.items():
         v = vs[0]
         n += 1
-        path = os.path.join(VERIF, "replays", "%s-%d-%d.json" % (pid, seed, n))
+        path = os.path.join(REPLAYS, "%s-%d-%d.json" % (pid, seed, n))
         json.dump(dict(property=pid, tier=tier, seed=seed, mode=v.get("mode", ""), shard=v.get("shard", 0), nshards=v.get("nshards", 1),
                        index=v.get("index", -1), signature=sig, what=v["what"], case=v.get("case"), occurrences=len(vs)),
                   open(path, "w"), indent=1, default=str)
